@@ -92,9 +92,10 @@ func configsFor(tier, repo string) []LoadConfig {
 	return []LoadConfig{
 		base,
 		{Dir: repo, Tags: ""},
-		{Dir: repo, Tags: "vfs", GOOS: "darwin", GOARCH: "amd64"},
-		{Dir: repo, Tags: "vfs", GOOS: "windows", GOARCH: "amd64"},
-		{Dir: repo, Tags: "vfs", GOOS: "linux", GOARCH: "386"},
+		// cross configurations are loaded with CGO_ENABLED=0; psanford/sqlite3vfs (tag vfs) needs cgo
+		{Dir: repo, Tags: "", GOOS: "darwin", GOARCH: "amd64"},
+		{Dir: repo, Tags: "", GOOS: "windows", GOARCH: "amd64"},
+		{Dir: repo, Tags: "", GOOS: "linux", GOARCH: "386"},
 	}
 }
 
